@@ -79,6 +79,8 @@ FOURTH_ROUND_MISSES = {
 SIXTH_ROUND_MISSES = {
  "C06-16": "missed: no matrix had entries below the routine's own 1e-9 threshold next to large ones -> `light_overlap`: heavy dyadic permutations plus two or three permutations of weight 2^-30 that share cells (the shared cells reach 1e-9, the others do not)",
  "C18-17": "missed: the closest distinct valuations differed by 1e-17 absolutely next to large ones, never by a few ulps relatively -> rows of neighbouring doubles (1 .. 2^22 ulps apart) and of integers above 2^24 that differ by one, ascending with the column half of the time",
+ "C06-17": "missed: scaled matrices had no light component -> `scaled_light`: row sum 4096..8192 carried by heavy permutations plus permutations of weight 2^-18 / 2^-17 (above 1e-6, below any threshold relative to the row sum)",
+ "C13-17": "missed: voting rules were run on at most 8 alternatives in this check -> every tenth election has 33..48 alternatives and 2..4 voters (several alternatives tied at the top)",
 }
 FIFTH_ROUND_MISSES = {
  "C01-13": "missed: the largest market had 170 residents -> one market with 258..400 residents per batch in which nearly everybody applies to the same small hospital first (`popular_market`)",
